@@ -37,8 +37,16 @@ fn run_subquery_blocking(
 ) -> Result<Vec<RecordBatch>> {
     let rt = subquery_runtime();
     std::thread::spawn(move || {
-        let stream = rt.block_on(physical.execute(0))?;
-        rt.block_on(async { stream.try_collect().await })
+        // A subquery's plan may have several output partitions (a Parquet scan
+        // has one per file / row group); reading partition 0 alone makes the
+        // subquery see only part of its table.
+        let mut all = Vec::new();
+        for p in 0..physical.output_partitions().max(1) {
+            let stream = rt.block_on(physical.execute(p))?;
+            let batches: Vec<RecordBatch> = rt.block_on(async { stream.try_collect().await })?;
+            all.extend(batches);
+        }
+        Ok(all)
     })
     .join()
     .unwrap_or_else(|_| {
